@@ -640,3 +640,28 @@ pub fn run_odd_windows(bars: &[(usize, BarKind, u64)], notify_len: u32, mult: u3
     mmio::set_handler(None);
     (n, out)
 }
+
+/// A platform whose MMIO mappings do not preserve the low address bits (`skew` is added to every
+/// mapped pointer): the windows of a well-formed device are then misaligned *as mapped*, which is
+/// what "suitably aligned for its use" is about. Construction must fail.
+pub fn skewed_mapping_case(skew: usize) -> Vec<(String, String)> {
+    let bars: Vec<(usize, BarKind, u64)> = vec![(GOOD_BAR as usize, BarKind::Mem64 { size: GOOD_BAR_SIZE, prefetch: true }, GOOD_BAR_ADDR)];
+    let caps = [good_common(), good_notify(), good_isr(), good_device()];
+    let b = build(&bars, &caps, false, 3);
+    hal::with(|h| h.mmio_skew = skew);
+    mmio::set_handler(Some(Box::new(RegWorld::new(b.trace.clone()))));
+    let mut root = PciRoot::new(ModelCam { bus: b.bus.clone() });
+    let r = crate::util::catch(|| PciTransport::new::<LabHal, _>(&mut root, DF));
+    let mut out = vec![];
+    match r {
+        Ok(Ok(t)) => {
+            out.push(("accepts-misaligned-mapping".into(), format!("the platform maps every MMIO window {} byte(s) past its natural alignment, the common configuration window (64-bit registers) is therefore misaligned as mapped, and construction succeeded", skew)));
+            std::mem::forget(t);
+        }
+        Ok(Err(_)) => {}
+        Err(p) => out.push(("construction-panic".into(), p)),
+    }
+    mmio::set_handler(None);
+    hal::with(|h| h.mmio_skew = 0);
+    out
+}
